@@ -118,13 +118,14 @@ def run_impl(case):
     kind, ops = case.lstrip("#").split("|")
     if kind.strip() != "res":
         return "bad-case", [], ["bad-case"]
-    impl = R.Impl()
+    impl = R.Impl(case.lstrip("#"))
+    tags_falsy = {0: "truthy-objects", 1: "truthy-objects", 2: "falsy-objects:__bool__", 3: "falsy-objects:__len__"}[impl.falsy]
     rcls = R.ref_roots()
     robj = {}
     late = {}              # real class -> names whose resolution it inherited from a base's cache
     over_value = set()     # (id(obj), name): add_trait applied while __dict__ held a value
     written = set()        # (real class, name): some instance of the class wrote the name
-    outs, hits, tags = [], [], set()
+    outs, hits, tags = [], [], {tags_falsy}
     # names that are delegates somewhere in the case: they and their `name_` shadows are resolved by the
     # delegate rule of __prefix_trait__, which the property text does not cover (correspondence only)
     delegs = set()
